@@ -52,6 +52,31 @@ func tokSx(s string) Sx {
 	return out
 }
 
+var tokNameRe = regexp.MustCompile(`^x(?:-|\.| |ö)?(\d+)$`)
+var tokValRe = regexp.MustCompile(`^V(\d+)!$`)
+
+// tokVarsSx encodes instance variables in the token convention: ((name-number value-code) ...), sorted;
+// variables outside the convention are left out.
+func tokVarsSx(vars map[string]string) Sx {
+	keys := make([]string, 0, len(vars))
+	for k := range vars {
+		keys = append(keys, k)
+	}
+	sort.Strings(keys)
+	out := sxList{}
+	for _, k := range keys {
+		m := tokNameRe.FindStringSubmatch(k)
+		v := tokValRe.FindStringSubmatch(vars[k])
+		if m == nil || v == nil {
+			continue
+		}
+		n, _ := strconv.Atoi(m[1])
+		x, _ := strconv.Atoi(v[1])
+		out = append(out, L(I(n), I(100+x)))
+	}
+	return out
+}
+
 // treeSx encodes a parameter tree by value with tokenised strings; map keys "p<n>" -> n.
 func treeSx(v interface{}) Sx {
 	switch x := v.(type) {
